@@ -182,3 +182,47 @@ package bitswap
 //@   noframe
 //@   nopanic
 //@   only sync.Map).: LoadOrStore Delete
+
+// ---------------------------------------------------------------------------------------------
+// C06: the Bitswap getter. Each method builds the empty blocks of exactly what it was asked for - the
+// header's height and square width, the coordinates / row / rows-with-namespace / range - fetches them
+// against the header's own roots, and assembles its answer positionally from the blocks' containers
+// (which only the verifying unmarshal fills: C10); a failed fetch yields the zero value, except for
+// samples, where the verified subset is handed back next to the error.
+//@ func (*Getter).GetSamples
+//@   property C06 C03
+//@   noframe
+//@   requires hdr != nil && hdr.DAH != nil
+//@   callpre bitswap.NewEmptySampleBlock: $arg0 == hdr.Height() && $arg1 == indices[rangeindex] && $arg2 == len(hdr.DAH.RowRoots)
+//@   callpre bitswap.Fetch: $arg2 == hdr.DAH && $arg3 == blks
+//@   ensures len(result0) == 0 || len(result0) == len(indices)
+//@   loop 1: invariant -1 <= rangeindex && rangeindex < len(indices) && len(blks) == len(indices)
+//@   loop 2: invariant -1 <= rangeindex#2 && rangeindex#2 < len(blks) && len(smpls) == len(blks) && len(blks) == len(indices)
+
+//@ func (*Getter).GetRow
+//@   property C06
+//@   noframe
+//@   requires hdr != nil && hdr.DAH != nil
+//@   callpre bitswap.NewEmptyRowBlock: $arg0 == hdr.Height() && $arg1 == rowIdx && $arg2 == len(hdr.DAH.RowRoots)
+//@   callpre bitswap.Fetch: $arg2 == hdr.DAH && len($arg3) == 1 && $arg3[0] == iface(blk)
+//@   ensures err != nil ==> result0.shares == nil
+
+//@ func (*Getter).GetNamespaceData
+//@   property C06 C02
+//@   noframe
+//@   requires hdr != nil && hdr.DAH != nil
+//@   callpre share.RowsWithNamespace: $arg0 == hdr.DAH && $arg1 == ns
+//@   callpre bitswap.NewEmptyRowNamespaceDataBlock: $arg0 == hdr.Height() && $arg1 == rowIdxs[rangeindex] && $arg2 == ns && $arg3 == len(hdr.DAH.RowRoots)
+//@   callpre bitswap.Fetch: $arg2 == hdr.DAH && $arg3 == blks
+//@   ensures err != nil ==> result0 == nil
+//@   checks err == nil && len(rowIdxs) > 0 ==> len(result0) == len(rowIdxs)
+//@   loop 1: invariant -1 <= rangeindex && rangeindex < len(rowIdxs) && len(blks) == len(rowIdxs)
+//@   loop 2: invariant -1 <= rangeindex#2 && rangeindex#2 < len(blks) && len(nsShrs) == len(blks) && len(blks) == len(rowIdxs)
+
+//@ func (*Getter).GetRangeNamespaceData
+//@   property C06
+//@   noframe
+//@   requires hdr != nil && hdr.DAH != nil
+//@   callpre bitswap.NewEmptyRangeNamespaceDataBlock: $arg0 == hdr.Height() && $arg1 == from && $arg2 == to && $arg3 == len(hdr.DAH.RowRoots) / 2
+//@   callpre bitswap.Fetch: $arg2 == hdr.DAH && $arg3 == blks
+//@   ensures err != nil ==> result0.Shares == nil && result0.FirstIncompleteRowProof == nil && result0.LastIncompleteRowProof == nil
